@@ -832,6 +832,11 @@ def rf10h(run):
                         return F.src(a['c'][0])
                 return ''
             scalar_only = bool(incs) and all(('MIR_T_F' in guard_text(x) or 'MIR_T_D' in guard_text(x)) for x in incs)
+            # a counter of its own that is not advanced inside the block-argument branches (they `continue` before the scalar code)
+            if not scalar_only and incs:
+                blk_regions = [y for y in f.walk() if y['k'] == 'IfStmt' and 'MIR_T_BLK' in F.src(y['c'][0])]
+                in_blk = [x for x in incs if any(any(z is x for z in F.walk(r_['c'][1])) for r_ in blk_regions)]
+                scalar_only = not in_blk
             if not scalar_only:
                 raise F.AnalysisBroken('machinize_call: the origin of the %%al value (%s) is not classified' % txt)
     ok = derived
